@@ -1,6 +1,6 @@
 (* The Q instance of the model, as the functions the runner calls. *)
 From Coq Require Import List ZArith QArith Bool.
-From SplipyModel Require Import Model.Num Model.BasisDef Model.BasisEval Model.Knots Model.Tensor Model.Obj Model.Deriv Model.KnotInsert Model.Reparam Model.Affine Model.Tol Model.StateCtx Model.Solve Model.Order Model.Split.
+From SplipyModel Require Import Model.Num Model.BasisDef Model.BasisEval Model.Knots Model.Tensor Model.Obj Model.Deriv Model.KnotInsert Model.Reparam Model.Affine Model.Tol Model.StateCtx Model.Solve Model.Order Model.Split Model.Periodic.
 Import ListNotations.
 
 Definition q_basis_evaluate := @basis_evaluate Q NumQ.
@@ -43,4 +43,6 @@ Definition q_obj_raise_order := @obj_raise_order Q NumQ.
 Definition q_obj_lower_order := @obj_lower_order Q NumQ.
 Definition q_solve := @solve Q NumQ.
 Definition q_obj_split (tol : Q) (o : obj Q) (d : nat) (ks : list Q) := @obj_split Q NumQ (S (length ks)) tol o d ks.
+Definition q_obj_make_periodic := @obj_make_periodic Q NumQ.
+Definition q_obj_lower_periodic (o : obj Q) (t d : nat) := @obj_lower_periodic Q NumQ 64 o t d.
 Definition q_res_witness (e : err) : res unit := Err e.
